@@ -387,14 +387,14 @@ Definition clear_child (ncells_new : nat) (c : tree) : tree :=
 
 (* the entities of the source subtree that went through copy_to_parent(..., clear_cache=True):
    an object root, or the objects below a group (Group.copy does not clear the group itself) *)
-Fixpoint clear_src (t : tree) : tree :=
+Fixpoint clear_src (kids : bool) (t : tree) : tree :=
   match t with
   | T n ch =>
       let p' := clear_payload (pl n) in
       T {| nuid := nuid n; pl := p'; npgs := npgs n |}
         (match knd (pl n), geok (pl n) with
-         | KGroup, _ => map clear_src ch
-         | KObject, GCurve => map (clear_child (length (cells p'))) ch
+         | KGroup, _ => map (clear_src true) ch
+         | KObject, GCurve => if kids then map (clear_child (length (cells p'))) ch else ch   (* the value caches of the children are dropped only when the children are copied *)
          | _, _ => ch
          end)
   end.
@@ -432,7 +432,7 @@ Definition copy (w : world) (sws : bool) (u : uid) (tws : bool) (p : uid) (o : o
       | Err e => Err e
       | Ok (t', st') =>
           let w1 := set_ws w tws (insert_child p t' (ws w tws)) (nxt st') in
-          let w2 := if clears o t then set_ws w1 sws (replace_tree u (clear_src t) (ws w1 sws)) (wnext w1) else w1 in
+          let w2 := if clears o t then set_ws w1 sws (replace_tree u (clear_src (o_children o) t) (ws w1 sws)) (wnext w1) else w1 in
           Ok (w2, root_uid t', combine (copied_uids (o_children o) t) (uids t'))
       end
   | _, _ => Err ENoEntity
